@@ -18,6 +18,9 @@ Acts(s) ==
            chain |-> "ethereum", addr |-> "0xabc", payload |-> "p1"] : au \in Auths}
     \cup {[name |-> "CallContract", caller |-> "alice", via |-> "other", through |-> "pr1", auth |-> au,
            chain |-> "ethereum", addr |-> "0xabc", payload |-> "p1"] : au \in Auths}
+    \cup {[name |-> "CallContract", caller |-> "gateway", via |-> "direct", through |-> "none", auth |-> au,
+           chain |-> "ethereum", addr |-> "0xabc", payload |-> "p1"] : au \in {{}, {"mallory"}}}
+    \cup {[name |-> "ValidateMessage", caller |-> "gateway", key |-> "k1", src |-> "sA", ph |-> "p1", via |-> "direct", auth |-> au] : au \in {{}, {"mallory"}}}
     \cup {[name |-> "CallContract", caller |-> "pr1", via |-> "self", through |-> "none", auth |-> {},
            chain |-> "ethereum", addr |-> "0xabc", payload |-> "p1"]}
 InitState == [Install(Blank("owner0", "op0", 0), "s1") EXCEPT !.deployed = TRUE]
